@@ -41,13 +41,14 @@ const (
 var kindNames = []string{"exec", "timeout", "proposal", "prepare", "commit", "rc", "decided", "pre", "post"}
 
 type msg struct {
-	id     int
-	kind   int
-	height int64
-	round  int64
-	slot   int64
-	m      *queue.DecodedSSVMessage
-	pushed time.Time // fake-clock instant at which the push returned
+	id      int
+	kind    int
+	height  int64
+	round   int64
+	slot    int64
+	m       *queue.DecodedSSVMessage
+	pushed  time.Time // fake-clock instant at which the push returned
+	pushSeq int       // operation sequence number of the push
 }
 
 func (m *msg) String() string {
@@ -131,13 +132,14 @@ func (f filt) String() string {
 }
 
 type world struct {
-	d             *sim.D
-	q             queue.Queue
-	cap           int
-	byPtr         map[*queue.DecodedSSVMessage]*msg
-	model         map[int]*msg // messages pushed successfully and not yet returned
-	nextID        int
-	lenDivergedAt string
+	d                 *sim.D
+	q                 queue.Queue
+	cap               int
+	byPtr             map[*queue.DecodedSSVMessage]*msg
+	model             map[int]*msg // messages pushed successfully and not yet returned
+	nextID            int
+	lenDivergedAt     string
+	opSeq, lastPopSeq int // operation counter; sequence number of the last completed pop operation
 }
 
 func (w *world) filterFn(f filt) queue.Filter {
@@ -195,7 +197,9 @@ func (w *world) checkPop(op string, f filt, st *queue.State, got *queue.DecodedS
 		// the nil rule above apply to it in full).
 		has := func(pred func(*msg) bool) *msg {
 			for _, y := range adm {
-				if op == "pop" && !y.pushed.Add(time.Millisecond).Before(called) {
+				// tolerated only when the returned message was already queued before the previous pop
+				// operation finished (it can have been read earlier) and y arrived within the last ms
+				if op == "pop" && x.pushSeq < w.lastPopSeq && !y.pushed.Add(time.Millisecond).Before(called) {
 					continue
 				}
 				if pred(y) {
@@ -229,6 +233,8 @@ func (w *world) checkPop(op string, f filt, st *queue.State, got *queue.DecodedS
 		d.Probe("len-diverged")
 		d.Logf("diagnostic: Len()=%d model=%d after %s", w.q.Len(), len(w.model), op)
 	}
+	w.opSeq++
+	w.lastPopSeq = w.opSeq
 	d.State("q", op, w.absState())
 }
 
@@ -309,6 +315,8 @@ func runSequential(d *sim.D) {
 			if okp {
 				w.model[x.id] = x
 				x.pushed = time.Now()
+				w.opSeq++
+				x.pushSeq = w.opSeq
 			}
 			d.Logf("push %s ok=%v", x, okp)
 			d.State("q", "push", w.absState())
@@ -318,6 +326,18 @@ func runSequential(d *sim.D) {
 			w.checkPop("trypop", f, st, got, time.Now())
 		case "pop":
 			st, f := stateOf(s, 2)
+			if s.Arg(0) == 1 || s.Arg(1) == 0 {
+				// A Pop whose context is already done while the inbox still holds messages has two ready
+				// select cases; which one the runtime takes is not seedable. Keep only one cause in
+				// flight: move the inbox into the list first with a try-pop that admits nothing (itself
+				// an operation under test: it must return nil and lose nothing).
+				none := filt{kind: 1}
+				got := w.q.TryPop(queue.NewMessagePrioritizer(st), w.filterFn(none))
+				w.checkPop("trypop", none, st, got, time.Now())
+				if d.V != nil {
+					break
+				}
+			}
 			ctx, cancel := context.WithCancel(context.Background())
 			if s.Arg(0) == 1 {
 				cancel() // already-cancelled context: Pop must still hand out a queued admissible message
